@@ -720,16 +720,18 @@ class Interp(object):
 
     def const_expr(self, m, node):
         """Evaluate a module-level constant expression (no state)."""
-        saved = getattr(self, 'state', None)
+        saved = (getattr(self, 'state', None), getattr(self, 'depth', 0), getattr(self, '_decisions', []), getattr(self, '_dpos', 0))
         st = State()
         self.state = st
+        self.depth = 0
+        self._decisions, self._dpos = [], 0     # module-level code is evaluated outside the trace: an undetermined choice = not evaluable
         try:
             fr = Frame({}, None, m)
             return self.expr(node, fr)
         except _Signal:
             return Top('module constant not evaluable')
         finally:
-            self.state = saved
+            self.state, self.depth, self._decisions, self._dpos = saved
 
     # -- function calls -----------------------------------------------------------------------------
     def call(self, fv, args, kwargs=None):
@@ -837,11 +839,22 @@ class Interp(object):
             self.call_func(Func(lm[0], lm[2]), [obj] + list(args), kwargs)
         return obj
 
-    def get_method(self, obj, name):
+    def get_method(self, obj, name, _depth=0):
         if isinstance(obj, Obj):
             lm = self.model.lookup_method(obj.cls.module, obj.cls.node, name)
             if lm:
                 return Bound(obj, Func(lm[0], lm[2]))
+            if obj.cls.module is not None and _depth < 4:
+                # a method produced by an expression in the class body:  __sub__ = make_op('-') ;  __rmul__ = __mul__
+                ca = self.model.class_attr(obj.cls.module, obj.cls.node, name)
+                if ca:
+                    m, c, val = ca
+                    if isinstance(val, ast.Name) and (self.model.lookup_method(m, c, val.id) or self.model.class_attr(m, c, val.id)):
+                        return self.get_method(obj, val.id, _depth + 1)
+                    if isinstance(val, (ast.Call, ast.Lambda)):
+                        v = self.const_expr(m, val)
+                        if isinstance(v, Func):
+                            return Bound(obj, v)
         return None
 
     # -- statements ---------------------------------------------------------------------------------
